@@ -1,6 +1,8 @@
 import JunoModel.Common.Proto
 import JunoModel.C03.Model
 import JunoModel.C03.ModelApi
+import JunoModel.C03.ModelKeys
+import JunoModel.C03.ModelRpc
 /-!
 Line-protocol driver for the C03 model (`lake build c03drv`).
 
@@ -18,6 +20,15 @@ Line-protocol driver for the C03 model (`lake build c03drv`).
   seedfloor <new|legacy> [<m>]      the floor a new process seeds (after the commitments below <m> are dropped)
   histkey <n> <byte>*               db.*HistoryAtBlockKey: prefix bytes ++ big-endian uint64 of <n>
   keylt <n> <m>                     bytes.Compare(key n, key m) < 0 on such keys
+  rpc <new|legacy> [fl <f>] <view>  the RPC handlers on that block id (head = latest): per address of the universe
+                                    getStorageAt v9 per slot, getStorageAt v10 per slot, getNonce, getClassHashAt;
+                                    tokens: hex value | nf (CONTRACT_NOT_FOUND) | bnf (BLOCK_NOT_FOUND) | err (internal)
+  ub <hexbytes>*                    db/dbutils.UpperBound of every byte string (`-` = empty): hex bytes | nil
+  keybytes <bs> <bn> <bc> <bt> (s <addr> <slot> | n <addr> | c <addr> | t <addr>)
+                                    the key prefix the readers iterate over / DeleteStorageNodesByPath deletes
+                                    under, given the four bucket bytes (storage, nonce, class-hash history,
+                                    ContractTrieStorage): hex bytes
+  inprefix <hex prefix> <hex key>*  is the key inside [prefix, UpperBound(prefix))? 1|0 per key
   reset
 
 The nodes are the BUCKET-level nodes of ModelApi.lean (`BNode`: chain height, headers, state updates,
@@ -164,7 +175,12 @@ def blockStoreToks {σ : Type} (n : BNode σ) : List String :=
   n.hashIdx.map (fun p => "hi:" ++ hx p.1 ++ "=" ++ hx p.2) ++
   n.casmMeta.map metaTok
 
+/-- leaf nodes of the storage tries on disk (bucket `ContractTrieStorage`, node type leaf) -/
+def leafToks (p : Addr × Leaves) : List String :=
+  p.2.map (fun e => "lf:" ++ hx p.1 ++ ":" ++ hx e.1 ++ "=" ++ hx e.2)
+
 def newStoreToks (n : BNode NState) : List String :=
+  (n.st.leaves.map leafToks).flatten ++
   n.st.contracts.map (fun p => "ct:" ++ hx p.1 ++ "=" ++ hx p.2.nonce ++ "," ++ hx p.2.classHash ++ "," ++ hx p.2.deployedHeight) ++
   (n.st.hist.map hkeyToks).flatten ++
   n.st.classes.map (fun p => "cl:" ++ hx p.1 ++ "=" ++ hx p.2) ++
@@ -177,6 +193,17 @@ def legacyStoreToks (n : BNode LState) : List String :=
   (n.st.logs.map hkeyToks).flatten ++
   n.st.classes.map (fun p => "cl:" ++ hx p.1 ++ "=" ++ hx p.2) ++
   blockStoreToks n
+
+def rpcTok : RpcRes → String
+  | .ok v => natToHex v
+  | .contractNotFound => "nf"
+  | .blockNotFound => "bnf"
+  | .internalError => "err"
+
+def rpcDump {σ : Type} (s : DState) (be : Backend σ) (n : BNode σ) (fl : Option Nat) (v : View) : String :=
+  " ".intercalate (s.addrs.map (fun a =>
+    s.slots.map (fun k => rpcTok (n.rpcStorageV9 be fl v a k)) ++ s.slots.map (fun k => rpcTok (n.rpcStorageV10 be fl v a k)) ++
+      [rpcTok (n.rpcNonce be fl v a), rpcTok (n.rpcClassHashAt be fl v a)])).flatten
 
 def toksLine (l : List String) : String := if l.isEmpty then "-" else " ".intercalate l
 
@@ -284,6 +311,13 @@ def step (s : DState) (line : String) : DState × String :=
         | none, .num k => (s, dumpAbs s k)
         | _, _ => (s, "bad-op")
       else (s, "bad-op")
+  | "rpc" :: m :: vw =>
+    match parseFloorView vw with
+    | none => (s, "bad-op")
+    | some (fl, v) =>
+      if m == "new" then (s, rpcDump s (newBackend s.cfg) s.nw fl v)
+      else if m == "legacy" then (s, rpcDump s (legacyBackendOf s.cfg.migValFix s.cfg.dupDeclFix) s.lg fl v)
+      else (s, "bad-op")
   | ["dumpstore", m] =>
     if m == "new" then (s, toksLine (newStoreToks s.nw))
     else if m == "legacy" then (s, toksLine (legacyStoreToks s.lg))
@@ -308,6 +342,43 @@ def step (s : DState) (line : String) : DState × String :=
     | some n, some pfx =>
       if n < 2 ^ 64 && pfx.all (· < 256) then (s, bytesHex (histKey pfx n)) else (s, "bad-op")
     | _, _ => (s, "bad-op")
+  | "ub" :: ps =>
+    match ps.mapM hexToBytes? with
+    | none => (s, "bad-op")
+    | some bss =>
+      (s, toksLine (bss.map (fun bs =>
+        match upperBoundLoop (bs.map UInt8.toNat) with
+        | none => "nil"
+        | some u => bytesHex u)))
+  | "inprefix" :: p :: ks =>
+    match hexToBytes? p, ks.mapM hexToBytes? with
+    | some p, some kss =>
+      (s, toksLine (kss.map (fun k => if inPrefixRange (p.map UInt8.toNat) (k.map UInt8.toNat) then "1" else "0")))
+    | _, _ => (s, "bad-op")
+  | "keybytes" :: bs :: bn :: bc :: bt :: rest =>
+    match hexToNat? bs, hexToNat? bn, hexToNat? bc, hexToNat? bt with
+    | some bs, some bn, some bc, some bt =>
+      if !(bs < 256 && bn < 256 && bc < 256 && bt < 256) then (s, "bad-op") else
+      let bk : BucketIds := ⟨bs, bn, bc, bt⟩
+      match rest with
+      | ["s", a, k] =>
+        match hexToNat? a, hexToNat? k with
+        | some a, some k => if a < 2 ^ 256 && k < 2 ^ 256 then (s, bytesHex (hkeyBytes bk (.storage a k))) else (s, "bad-op")
+        | _, _ => (s, "bad-op")
+      | ["n", a] =>
+        match hexToNat? a with
+        | some a => if a < 2 ^ 256 then (s, bytesHex (hkeyBytes bk (.nonce a))) else (s, "bad-op")
+        | none => (s, "bad-op")
+      | ["c", a] =>
+        match hexToNat? a with
+        | some a => if a < 2 ^ 256 then (s, bytesHex (hkeyBytes bk (.classHash a))) else (s, "bad-op")
+        | none => (s, "bad-op")
+      | ["t", a] =>
+        match hexToNat? a with
+        | some a => if a < 2 ^ 256 then (s, bytesHex (ownerPrefix bk a)) else (s, "bad-op")
+        | none => (s, "bad-op")
+      | _ => (s, "bad-op")
+    | _, _, _, _ => (s, "bad-op")
   | ["keylt", n, m] =>
     match hexToNat? n, hexToNat? m with
     | some n, some m =>
